@@ -5,6 +5,10 @@
 From PowHsm Require Import Model.CommProtocol.
 From PowHsm Require Import Model.LedgerProtocol.
 From PowHsm Require Import Proofs.C02.
+From PowHsm Require Import Gen.Src.
+From PowHsm Require Import Proofs.SrcEquivBase.
+From PowHsm Require Import Proofs.SrcEquivProto.
+From PowHsm Require Import Proofs.SrcLiftC02.
 Open Scope N_scope.
 
 (* a request the gate rejects is answered {errorcode: code} and the world (script, trace, flag) is untouched: no exchange with the device at all *)
@@ -200,5 +204,132 @@ Theorem C02_accept_runs_validated :
          (exists (vn : str) (v : Z),
             validator_name m cmd = Some vn /\ run_validator m vn req = Some v /\ (0 <= v)%Z).
 Proof. exact (@accept_runs_validated). Qed.
+
+(* TIE BY TRANSLATION: __internal_handle_request of comm/protocol.py, as regenerated from the Python source text on this run (Gen/Src.v), equals the model's gate for every JSON value and every operation table; a change of the source that alters the gate's behaviour breaks this proof *)
+Theorem C02_source_gate_v5_is_model_gate :
+  forall (op : pv -> pv -> pr pv) (self : pv) (request : json),
+         src_HSM2Protocol____internal_handle_request op self (of_json request) =
+         gate_spec V5 op request.
+Proof. exact (@src_gate_v5). Qed.
+
+(* the same for the legacy protocol class (inherited methods re-translated with the v1 constants and its own dispatch table) *)
+Theorem C02_source_gate_v1_is_model_gate :
+  forall (op : pv -> pv -> pr pv) (self : pv) (request : json),
+         src_HSM1Protocol____internal_handle_request op self (of_json request) =
+         gate_spec V1 op request.
+Proof. exact (@src_gate_v1). Qed.
+
+(* a request the gate rejects reaches no operation of the translated source (the result does not depend on the operation table) and is answered {errorcode: code} *)
+Theorem C02_source_rejected_no_operation :
+  forall (m : pmode) (op1 op2 : pv -> pv -> pr pv) (self : pv) (request : json) (c : Z),
+         gate_request m request = GReject c ->
+         match m with
+         | V5 => src_HSM2Protocol____internal_handle_request op1 self (of_json request)
+         | V1 => src_HSM1Protocol____internal_handle_request op1 self (of_json request)
+         end =
+         match m with
+         | V5 => src_HSM2Protocol____internal_handle_request op2 self (of_json request)
+         | V1 => src_HSM1Protocol____internal_handle_request op2 self (of_json request)
+         end /\
+         match m with
+         | V5 => src_HSM2Protocol____internal_handle_request op1 self (of_json request)
+         | V1 => src_HSM1Protocol____internal_handle_request op1 self (of_json request)
+         end = POk (reply_code c).
+Proof. exact (@src_gate_rejected_no_operation). Qed.
+
+(* and that code is one the documentation lists (generic, or documented for the command) *)
+Theorem C02_source_gate_v5_rejected_documented :
+  forall (op : pv -> pv -> pr pv) (self : pv) (r : json) (code : Z),
+         gate_request V5 r = GReject code ->
+         src_HSM2Protocol____internal_handle_request op self (of_json r) = POk (reply_code code) /\
+         (In code DOC_GENERIC \/
+          (exists (cmd : str) (req : obj) (doc : list Z),
+             classify_request V5 r = VValidate cmd req /\
+             assoc_str cmd DOC_CODES = Some doc /\ In code doc)).
+Proof. exact (@src_gate_v5_rejected). Qed.
+
+(* the key-id validator of the source accepts exactly strings that are five-element BIP32 paths *)
+Theorem C02_source_validate_key_id_accepts_iff :
+  forall (self : pv) (req : obj),
+         src_HSM2Protocol___validate_key_id self (of_obj req) = POk (VInt 0) <->
+         (exists (x : str) (p : list N),
+            jget (s "keyId") req = Some (JStr x) /\ bip32_path x = Some p).
+Proof. exact (@src_validate_key_id_accepts_iff). Qed.
+
+(* each validator of the source computes the model's verdict: sign *)
+Theorem C02_source_validate_sign_v5 :
+  forall (self : pv) (req : obj),
+         src_HSM2Protocol___validate_sign self (of_obj req) =
+         POk (VInt (validate_sign_v5 (codes_of V5) req)).
+Proof. exact (@src_validate_sign_v5). Qed.
+
+(* message (hash / legacy tx / segwit tx shapes with their bounds) *)
+Theorem C02_source_validate_message_v5 :
+  forall (self : pv) (req : obj) (w : msg_kind),
+         src_HSM2Protocol___validate_message self (of_obj req) (what_val w) =
+         POk (VInt (validate_message (codes_of V5) req w)).
+Proof. exact (@src_validate_message_v5). Qed.
+
+(* auth *)
+Theorem C02_source_validate_auth_v5 :
+  forall (self : pv) (req : obj) (mandatory : bool),
+         src_HSM2Protocol___validate_auth self (of_obj req) (VBool mandatory) =
+         POk (VInt (validate_auth (codes_of V5) req mandatory)).
+Proof. exact (@src_validate_auth_v5). Qed.
+
+(* advanceBlockchain *)
+Theorem C02_source_validate_advance_blockchain_v5 :
+  forall (self : pv) (req : obj),
+         src_HSM2Protocol___validate_advance_blockchain self (of_obj req) =
+         POk (VInt (validate_advance_blockchain (codes_of V5) req)).
+Proof. exact (@src_validate_advance_blockchain_v5). Qed.
+
+(* updateAncestorBlock *)
+Theorem C02_source_validate_update_ancestor_block_v5 :
+  forall (self : pv) (req : obj),
+         src_HSM2Protocol___validate_update_ancestor_block self (of_obj req) =
+         POk (VInt (validate_update_ancestor_block (codes_of V5) req)).
+Proof. exact (@src_validate_update_ancestor_block_v5). Qed.
+
+(* signerHeartbeat *)
+Theorem C02_source_validate_signer_heartbeat_v5 :
+  forall (self : pv) (req : obj),
+         src_HSM2Protocol___validate_signer_heartbeat self (of_obj req) =
+         POk (VInt (validate_heartbeat (codes_of V5) req SIGNER_HBT_UD_VALUE_SIZE)).
+Proof. exact (@src_validate_signer_heartbeat_v5). Qed.
+
+(* uiHeartbeat *)
+Theorem C02_source_validate_ui_heartbeat_v5 :
+  forall (self : pv) (req : obj),
+         src_HSM2Protocol___validate_ui_heartbeat self (of_obj req) =
+         POk (VInt (validate_heartbeat (codes_of V5) req UI_HBT_UD_VALUE_SIZE)).
+Proof. exact (@src_validate_ui_heartbeat_v5). Qed.
+
+(* legacy sign *)
+Theorem C02_source_validate_sign_v1 :
+  forall (self : pv) (req : obj),
+         src_HSM1Protocol___validate_sign self (of_obj req) =
+         POk (VInt (validate_sign_v1 (codes_of V1) req)).
+Proof. exact (@src_validate_sign_v1). Qed.
+
+(* BIP32Path.__init__ of comm/bip32.py as translated: the parsed object or ValueError, as the model's grammar says *)
+Theorem C02_source_bip32_path :
+  forall x : str,
+         src_BIP32Path____init__ (VObj "BIP32Path" []) (VStr x) (VInt 5) =
+         match bip32_path x with
+         | Some els => POk (path_obj els)
+         | None => PRaise ValueError
+         end.
+Proof. exact (@src_bip32_path_ok). Qed.
+
+(* is_hex_string_of_length of comm/utils.py as translated (no prefix allowed): true exactly for str values that bytes.fromhex reads as n bytes *)
+Theorem C02_source_is_hex_string_of_length :
+  forall (j : json) (n : N),
+         src_comm_utils__is_hex_string_of_length (of_json j) (VInt (Z.of_N n)) (VBool false) =
+         POk (VBool match j with
+                    | JStr x => is_hex_string_of_length x n
+                    | _ => false
+                    end).
+Proof. exact (@src_is_hex_string_of_length_ok). Qed.
 
 Example C02_nonvacuous : True. Proof. exact I. Qed. (* 24 concrete classifications closed by vm_compute in Proofs/C02.v *)
